@@ -97,7 +97,17 @@ class Desugar:
         if h == "let":
             names = [b[0] for b in x[1]]
             vals = [self.d(b[1]) for b in x[1]]
-            return [["lambda", names] + self.body(x[2:])] + vals
+            if len(names) < 2:
+                return [["lambda", names] + self.body(x[2:])] + vals
+            # all initialisers first, left to right, each into a FRESH temporary (so no initialiser can
+            # see a variable of this let), then the variables one by one: only one-parameter lambdas
+            temps = [self.fresh() for _ in names]
+            inner = self.thunk(x[2:])
+            for nm, t in reversed(list(zip(names, temps))):
+                inner = [["lambda", [nm], inner], t]
+            for t, v in reversed(list(zip(temps, vals))):
+                inner = [["lambda", [t], inner], v]
+            return inner
         if h == "let*":
             if not x[1]:
                 return self.thunk(x[2:])
